@@ -98,6 +98,8 @@ def _prefix_is_code(fnode):
                     if isinstance(e.elt, ast.Attribute) and e.elt.attr == "__code__":
                         return True
                     todo.append(e.elt)
+                elif isinstance(e, ast.Attribute) and e.attr == "__code__":
+                    return True
                 elif isinstance(e, ast.Call):
                     todo.extend(e.args)
                 elif isinstance(e, (ast.Tuple, ast.List)):
@@ -268,32 +270,46 @@ def errors_consulted(ctx):
 
 
 def r4_whole_ranks(ctx):
+    from .common import builds
+
     multi = A.multimap(ctx.repo)
     n = 0
     for m in lookup_path(ctx, multi):
+        bs = builds(m.node)
+        # element-wise builds that also appear inline (e.g. a set comprehension stored straight into a table)
         for c in ast.walk(m.node):
-            if isinstance(c, (ast.ListComp, ast.SetComp, ast.GeneratorExp)):
-                mentions_code = any((isinstance(x, ast.Attribute) and x.attr == "__code__") or (isinstance(x, ast.Constant) and x.value == "__code__") for x in ast.walk(c.elt))
-                if not mentions_code:
-                    continue
-                ctx.touch(m)
-                for g in c.generators:
-                    n += 1
-                    whole = dotted(g.iter) is not None
-                    if whole:
-                        # and that name is itself built from a whole collection
-                        for a in ast.walk(m.node):
-                            if isinstance(a, ast.Assign) and any(isinstance(t, ast.Name) and t.id == dotted(g.iter) for t in a.targets) and isinstance(a.value, (ast.ListComp, ast.SetComp)):
-                                if not all(dotted(gg.iter) is not None for gg in a.value.generators):
-                                    whole = False
-                    ctx.ob(
-                        f"{m.key}:codes-over:{short(g.iter, 30)}",
-                        m.loc(c),
-                        f"the code-object collection `{short(c, 50)}` is built from the whole rank / candidate list",
-                        whole,
-                        f"`{short(c, 70)}` covers only part of the rank: a method of that rank calling call_next is not recognised as a candidate or has no continuation entry",
-                    )
+            if isinstance(c, (ast.ListComp, ast.SetComp, ast.GeneratorExp)) and not any(b.node is not None and isinstance(getattr(b.node, "value", None), ast.AST) and any(x is c for x in ast.walk(b.node.value)) for b in bs if b.kind == "comp"):
+                from .common import Build
+
+                g = c.generators[0]
+                bs.append(Build("<inline>", c.elt, g.target, g.iter, [], c, "comp"))
+        for b in bs:
+            mentions_code = any((isinstance(x, ast.Attribute) and x.attr == "__code__") or (isinstance(x, ast.Constant) and x.value == "__code__") for x in ast.walk(b.elt))
+            if not mentions_code:
+                continue
+            ctx.touch(m)
+            n += 1
+            whole = dotted(iter_base_expr(b.iter)) is not None
+            if whole:
+                # ... and that collection is itself built from a whole collection
+                src_name = dotted(iter_base_expr(b.iter))
+                for b2 in bs:
+                    if b2.name == src_name and dotted(iter_base_expr(b2.iter)) is None:
+                        whole = False
+            ctx.ob(
+                f"{m.key}:codes-over:{short(b.iter, 30)}",
+                m.loc(b.node),
+                f"the code-object collection built from `{short(b.iter, 30)}` covers the whole rank / candidate list",
+                whole,
+                f"`{short(b.node, 70)}` covers only part of the rank: a method of that rank calling call_next is not recognised as a candidate or has no continuation entry",
+            )
     ctx.require(n >= 2, "expected the candidate-code set and the per-rank continuation codes")
+
+
+def iter_base_expr(e):
+    from .common import iter_base
+
+    return iter_base(e)
 
 
 def r5_next_keys_like_call_next(ctx):
